@@ -3,7 +3,9 @@
 Proof: lean/XvcPipeline Props/C11.lean (C11_measure: every step of the system decreases a natural-number measure, so
 there is no infinite run; C11_progress: in every reachable state of an acyclic pipeline that is not final some step
 other than a thread failure is enabled; C11_final_verdict; C11_relay_no_block for the output relay) .
-Tie: translator + hook traces validated by the model driver (final states equal).
+Tie: translator + hook traces validated by the model driver (final states equal); lock-nesting tables of the pipeline crate
+(Gen/Locks.lean, C11_lock_order) and of the path metadata provider of xvc-core (Gen/PmpLocks.lean, C11_pmp_no_self_deadlock),
+both regenerated from the sources by lib/lock_extract.py on every run.
 Oracle: the process exits within a timeout (on timeout: the live children found in /proc are recorded), every started
 command ended, and (hook build) the last published state of every step is DoneByRunning, DoneWithoutRunning or Broken.
 """
@@ -125,6 +127,86 @@ def gen_cases(chk, quick):
     return cases
 
 
+def _depends_on(n, edges, a):
+    """steps that `a` depends on, transitively"""
+    seen, todo = set(), [a]
+    while todo:
+        x = todo.pop()
+        for e in edges:
+            if e[0] == x and e[1] not in seen:
+                seen.add(e[1]); todo.append(e[1])
+    return seen
+
+
+def gen_shared_cases(chk, quick):
+    """SHARED DEPENDENCY PATHS: several steps name the same path in a dependency, the path exists or not, something creates it
+    during the run or not.  xvc looks every path up through one cache per run (XvcPathMetadataProvider), filled by the step
+    threads and by a file-system watcher thread: the second lookup of a path meets what the first one (of any thread) left.
+    Dimensions: kind of dependency (file / regex / lines read the path through `get`, glob through `glob_paths`) x number of
+    users 1..3 x path exists or not x nobody / an upstream step / an unrelated step creates it x the path is a declared output
+    (written or not written by its producer) x when-options and dependents of the users; then random DAGs with 1-2 shared paths."""
+    rng = chk.rng
+    cases = []
+
+    def add(spec, entries, pool, behav=None, label='', runs=1):
+        cases.append(sc.mk_case(sc.add_shared(spec, entries), pool, behav, runs=runs, label='shared/' + label))
+    for kind in sc.SHARED_KINDS:
+        for exists in (False, True):
+            # 1..3 independent steps read the same path
+            for users in (1, 2, 3):
+                if quick and exists and users == 3:
+                    continue
+                add(sc.mk_spec(users, []), [sc.mk_shared(0, kind, range(users), exists=exists)], rng.choice([1, 2, 4]),
+                    [{'sleep_ms': rng.choice([0, 30])} for _ in range(users)], label=f'{kind} x{users} {"present" if exists else "missing"}',
+                    runs=2 if users == 2 else 1)
+        # two users, one of them behind a gate step (its lookup certainly comes after the other one's) x when of the late user; a dependent of it
+        for w in (sc.WHENS if kind in ('file', 'regex') or not quick else sc.WHENS[:1]):
+            spec = sc.mk_spec(4, [(2, 0), (3, 2)], whens=['by_dependencies', 'by_dependencies', w, 'by_dependencies'])
+            add(spec, [sc.mk_shared(0, kind, [1, 2])], 2, [{'sleep_ms': 90}, {}, {}, {}], label=f'{kind} missing, second user behind a gate, when={w}')
+        # an upstream step creates the file the users read (they wait for it) / an unrelated step creates it while they look
+        spec = sc.mk_spec(3, [(1, 0), (2, 0)])
+        add(spec, [sc.mk_shared(0, kind, [1, 2], creator=0)], 2, [{'sleep_ms': 60}, {}, {}], label=f'{kind} missing, created by the upstream step')
+        spec = sc.mk_spec(4, [(2, 1)])
+        add(spec, [sc.mk_shared(0, kind, [0, 2, 3], creator=1)], 4, [{}, {'sleep_ms': 60}, {}, {'sleep_ms': 90}], label=f'{kind} missing, created meanwhile by an unrelated step')
+        if kind != 'glob':
+            # the shared path is the declared output of a step that writes it / does not write it; one and two consumers
+            for created in (False, True):
+                for users in ((1,), (1, 2)):
+                    n = 1 + len(users)
+                    add(sc.mk_spec(n, []), [sc.mk_shared(0, kind, users, output_of=0, created=created)], 2,
+                        label=f'{kind} = declared output {"written" if created else "NOT written"} by its step, {len(users)} consumer(s)')
+    # two different missing paths crossing over two steps; a missing and a present one
+    add(sc.mk_spec(2, []), [sc.mk_shared(0, 'file', [0, 1]), sc.mk_shared(1, 'lines', [0, 1])], 2, label='file + lines missing, both steps read both')
+    add(sc.mk_spec(3, [(2, 1)]), [sc.mk_shared(0, 'file', [0, 2], exists=True), sc.mk_shared(1, 'regex', [1, 2])], 2, label='present file + missing regex target')
+    # random DAGs with 1-2 shared paths
+    dags = {n: list(sc.all_dags(n)) for n in (3, 4)}
+    for _ in range(28 if quick else 160):
+        n = rng.choice([3, 4, 4]) if quick or rng.random() < 0.6 else rng.randint(5, 7)
+        edges = [list(e) + ['step'] for e in (rng.choice(dags[n]) if n in dags else sc.random_dag(rng, n, 0.3))]
+        entries = []
+        for k in range(rng.choice([1, 1, 2])):
+            kind = rng.choice(['file', 'file', 'regex', 'lines', 'glob'])
+            how = rng.choice(['nobody', 'nobody', 'creator', 'output'])
+            producer = rng.randrange(n) if how != 'nobody' else None
+            up = _depends_on(n, edges + [[u, e['output_of'], 'shared'] for e in entries if e.get('output_of') is not None for u in e['users']], producer) if producer is not None else set()
+            cand = [i for i in range(n) if i != producer and (how != 'output' or i not in up)]
+            if not cand:
+                continue
+            users = rng.sample(cand, rng.randint(1, min(3, len(cand))))
+            entries.append(sc.mk_shared(k, kind, users, exists=rng.random() < 0.3,
+                                        creator=producer if how == 'creator' else None,
+                                        output_of=producer if how == 'output' else None, created=rng.random() < 0.5))
+        if not entries:
+            continue
+        whens = [rng.choice(['by_dependencies'] * 5 + ['always', 'always', 'never']) for _ in range(n)]
+        behav = [{'rc': 1 if rng.random() < 0.2 else 0, 'sleep_ms': rng.choice([0, 0, 30, 90])} for _ in range(n)]
+        spec = sc.add_shared(sc.mk_spec(n, edges, whens=whens), entries)
+        if sc.has_cycle(spec):
+            continue
+        cases.append(sc.mk_case(spec, rng.choice([1, 2, 4]), behav, runs=2 if rng.random() < 0.25 else 1, label='shared/random-dag'))
+    return cases
+
+
 def gen_lock_cases(chk, quick):
     """Comparisons of CHANGED dependencies on 2-4 parallel steps: generic (command output), lines, regex, param, glob and
     several large sparse files per step, so that the comparison of one step is still running while the others publish their
@@ -206,6 +288,11 @@ def run(chk):
         'OUTPUT-FAULT STREAM (hook-free binary; first the minimised C11-2 scenario a<-b | true): chains, joins, independent steps, a missing dependency file, '
         '70000 B outputs and a signal-killed command, each with xvc\'s stdout/stderr reader gone at once (| true), after the first line (| head -1), after 64 bytes, '
         'both streams closed, and stdout (and stderr) = /dev/full; judged only on: the run terminates (any exit status) and leaves no xvc process behind; '
+        'SHARED-PATH STREAM (plain and hook build): steps that name the SAME path in a dependency - kind file / regex / lines / glob x 1..3 users x the path '
+        'exists or not x nobody / an upstream step / an unrelated step creates it during the run x the path is the declared output of a step that writes it '
+        'or does not x the second user behind a gate x when-options x a dependent; two shared paths crossing over two steps; ' +
+        ('28' if quick else '160') + ' random DAGs on 3-4 (thorough: up to 7) steps with 1-2 shared paths (70 % missing), random users, creators, producers, '
+        'failing commands, when-options, pools, one or two runs; '
         'LOCK STREAM: 4 pipelines with 2-4 parallel steps whose dependencies (generic command output, lines, regex, param, glob and 1-6 sparse files of '
         '6-32 MiB each) are ALL changed before every run, 5 (quick) / 12 (thorough) consecutive runs each on the hook-free binary and 2 on the hook build; '
         'a run still alive after 15 s is observed for 3-60 s more and counts as hung only if it stays alive without using CPU; '
@@ -217,6 +304,8 @@ def run(chk):
     sc.run_family(ctx, 'output-fault/plain', fault_cases, OWN, hook=False, timeout=12, shrink=5)
     lock_cases = gen_lock_cases(chk, quick)
     sc.run_family(ctx, 'locks/plain', lock_cases, OWN, hook=False, timeout=15, workers=2, confirm=False, shrink=False)
+    shared_cases = gen_shared_cases(chk, quick)
+    sc.run_family(ctx, 'shared-paths/plain', shared_cases, OWN, hook=False, timeout=10)
     sc.run_family(ctx, 'outcomes/plain', cases, OWN, hook=False, timeout=12 if quick else 20)
     if ctx.xvc_hook:
         hooked = []
@@ -225,10 +314,24 @@ def run(chk):
             c2['sched'] = f'{chk.seed * 15485863 + k}:{chk.rng.choice([0, 200, 1500, 5000])}'
             hooked.append(c2)
         sc.run_family(ctx, 'outcomes/hook', hooked, OWN, hook=True, timeout=12 if quick else 20)
+        sc.run_family(ctx, 'shared-paths/hook', [dict(c, sched=f'{chk.seed * 7919 + k}:{chk.rng.choice([0, 200, 1500])}') for k, c in enumerate(shared_cases)],
+                      OWN, hook=True, timeout=10)
         hooked_locks = [dict(c, sched=f'{chk.seed * 31 + k}:200', runs=2) for k, c in enumerate(lock_cases)]
         sc.run_family(ctx, 'locks/hook', hooked_locks, OWN, hook=True, timeout=15, workers=2, confirm=False, shrink=False)
     broke = bool(chk.proof['broken'] or chk.tie['disagreements'])
-    if broke or not quick:
+    broken_names = [t for b in chk.proof['broken'] for t in b.get('theorems', [])]
+    only_pmp = bool(broken_names) and all(t.startswith('C11_pmp_') for t in broken_names) and not chk.tie['disagreements']
+    if only_pmp:
+        # the failing input of a re-acquisition inside the path metadata provider is a pipeline whose steps look the same path
+        # up again: the shared-path streams above are that search (they run in every tier); the long-wait scenario is unrelated
+        chk.notes.append('obligation(s) about the path metadata provider no longer check (' + ', '.join(sorted(set(broken_names))) + '): '
+                         'the search for a failing input is the shared-paths stream; re-acquisitions found by the extractor: ' +
+                         '; '.join(((ctx.locks or {}).get('path_metadata_provider') or {}).get('reacquisitions', [])[:4]))
+        for f in chk.oracle_failures:
+            if f.get('signature', {}).get('kind') == 'missing-path-shared-by-steps' and isinstance(f.get('detail'), dict):
+                f['detail']['proof_obligations_that_no_longer_check'] = sorted(set(broken_names))
+                f['detail']['reacquisitions_in_the_extracted_table'] = ((ctx.locks or {}).get('path_metadata_provider') or {}).get('reacquisitions', [])
+    if (broke and not only_pmp) or not quick:
         chk.notes.append('long-wait scenario run because ' + ('a proof obligation or the trace tie broke (search for a failing input)' if broke else 'of the thorough tier'))
         sc.run_family(ctx, 'long-wait/plain', [long_wait_case()], OWN, hook=False, timeout=110, workers=1, confirm=False, shrink=False)
         names = sorted({t for b in chk.proof['broken'] for t in b.get('theorems', [])})
